@@ -25,15 +25,17 @@ theorem Uniform_sample_eq (lower upper : α) (g : Rng) :
   simp only
   split <;> rfl
 
-theorem Exponential_sample_eq (lambda : α) (g : Rng) :
-    Exponential.sample lambda g =
-      (Cv.Src.C03.Exponential_sample (UniformF.sample (0 : α) 1 g).1 lambda, (UniformF.sample (0 : α) 1 g).2) := rfl
+/- F53 (29daf79): `Exponential::sample`, `Gumbel::sample`, `Pareto::sample` now redraw while `u == 0.`; a `while` loop is
+outside the translated Rust subset, so `Generated/SrcC03.lean` keeps the LAST translated bodies (the formula applied to the
+draw `u`) and the runner reports a source-drift note.  What is tied here is therefore only: the model's formula after the
+loop (`*.ofU`) is that last translated formula.  Needed from the translator: the expression after the `while` as a fragment. -/
+theorem Exponential_sample_eq (lambda u : α) :
+    Exponential.ofU lambda u = Cv.Src.C03.Exponential_sample u lambda := rfl
 
-theorem Gumbel_sample_eq (mu beta : α) (g : Rng) :
-    Gumbel.sample mu beta g =
-      (Cv.Src.C03.Gumbel_sample (UniformF.sample (0 : α) 1 g).1 mu beta, (UniformF.sample (0 : α) 1 g).2) := rfl
+theorem Gumbel_sample_eq (mu beta u : α) :
+    Gumbel.ofU mu beta u = Cv.Src.C03.Gumbel_sample u mu beta := rfl
 
-theorem Pareto_sample_eq (alpha minval : α) (g : Rng) :
-    Pareto.sample alpha minval g = (Cv.Src.C03.Pareto_sample (g.f64 (α := α)).1 alpha minval, (g.f64 (α := α)).2) := rfl
+theorem Pareto_sample_eq (alpha minval u : α) :
+    Pareto.ofU alpha minval u = Cv.Src.C03.Pareto_sample u alpha minval := rfl
 
 end Cv.SrcTie.C03
